@@ -120,7 +120,9 @@ class XtcePacketDefinition(common.AttrComparable):
                 _update_caches(sequence_container)
 
         self.ns = ns  # Default ns dict used when creating XML elements
-        self.xtce_schema_uri = ns[xtce_ns_prefix] if ns else None  # XTCE schema URI
+        # XTCE schema URI. None for documents that do not use an XTCE namespace at all, even if the namespace
+        # mapping declares other, unrelated namespaces (e.g. only xmlns:xsi)
+        self.xtce_schema_uri = ns.get(xtce_ns_prefix) if ns else None
         self.xtce_ns_prefix = xtce_ns_prefix
         self.root_container_name = root_container_name
         self.space_system_name = space_system_name
